@@ -132,7 +132,7 @@ where
 }
 
 pub fn random_histories(ctx: &mut Ctx) {
-    let nh = ctx.by_tier(20, 120);
+    let nh = ctx.by_tier(20, 600);
     let steps = ctx.by_tier(400, 1500);
     let mut rng = ctx.rng(0xC01);
     for h in 0..nh {
